@@ -11,7 +11,10 @@ static unsigned w_prop_bit(const char *id) { return !strcmp(id, "C12") ? PC12 : 
 
 #define MAXN 8
 #define MAXL 3
-struct elem { long pad; int val; int idx; struct cstl_dlist_node n; long tail; };
+struct elem { long pad; int val; int idx; struct cstl_dlist_node n; long pad2; struct cstl_dlist_node n2; long tail; };
+/* in a MIXED configuration the last list threads its elements through n2 (another offset): swap must carry the offset, concat across offsets is a documented no-op */
+static int MIXED; static size_t m_off[MAXL];
+#define ND(i, off) ((struct cstl_dlist_node *)((char *)&pool[i] + (off)))
 static struct elem pool[MAXN];
 static struct cstl_dlist L[MAXL];
 static int N, NL;
@@ -33,12 +36,15 @@ enum { K_CLEAR, K_CLEAR_NONEMPTY, K_FOREACH_ERASE, K_SORT_GT1, K_REVERSE_GT1, K_
 static const char *w_counter_names[] = { "clear_applied", "clear_on_nonempty", "foreach_with_removal", "sort_len_gt1", "reverse_len_gt1",
                                           "concat_nonempty_source", "swap_with_one_empty", "pop_on_empty", NULL };
 
-static int w_nconfigs(int thorough) { return thorough ? 4 : 2; }
+static int w_nconfigs(int thorough) { return thorough ? 6 : 3; }
 static void w_setup(int cfg, int thorough)
 {
     int i, l, j, d;
     static const int v5[] = { 0, 1, 1, 2, 3 }, v6[] = { 2, 0, 1, 1, 3, 0 }, v4[] = { 1, 0, 1, 2 };
     const int *v;
+    MIXED = 0;
+    if (!thorough && cfg == 2) { MIXED = 1; cfg = 0; }
+    if (thorough && cfg >= 4) { MIXED = 1; cfg = cfg == 4 ? 0 : 1; }
     if (!thorough) {
         if (cfg == 0) { NL = 2; N = 5; v = v5; } else { NL = 3; N = 4; v = v4; }
     } else {
@@ -48,7 +54,7 @@ static void w_setup(int cfg, int thorough)
         else { NL = 3; N = 5; v = v5; }
     }
     for (i = 0; i < N; i++) vals[i] = v[i];
-    snprintf(cfgdesc, sizeof cfgdesc, "%d lists, pool of %d elements, values with ties", NL, N);
+    snprintf(cfgdesc, sizeof cfgdesc, "%d lists, pool of %d elements, values with ties%s", NL, N, MIXED ? ", the last list uses a node member at another offset" : "");
     w_nops = 0;
     for (l = 0; l < NL; l++) for (i = 0; i < N; i++) { w_ops[w_nops++] = OP(O_PUSHF, l, i, 0); w_ops[w_nops++] = OP(O_PUSHB, l, i, 0); }
     for (l = 0; l < NL; l++) { w_ops[w_nops++] = OP(O_POPF, l, 0, 0); w_ops[w_nops++] = OP(O_POPB, l, 0, 0); }
@@ -70,8 +76,8 @@ static void w_init(void)
     shim_reset();
     __asan_unpoison_memory_region(pool, sizeof pool);
     memset(pool, 0, sizeof pool);
-    for (i = 0; i < N; i++) { pool[i].val = vals[i]; pool[i].idx = i; m_where[i] = -1; pool[i].pad = 0x1111; pool[i].tail = 0x2222; }
-    for (l = 0; l < NL; l++) { memset(&L[l], 0xA5, sizeof L[l]); cstl_dlist_init(&L[l], offsetof(struct elem, n)); m_len[l] = 0; }
+    for (i = 0; i < N; i++) { pool[i].val = vals[i]; pool[i].idx = i; m_where[i] = -1; pool[i].pad = 0x1111; pool[i].tail = 0x2222; pool[i].pad2 = 0x3333; }
+    for (l = 0; l < NL; l++) { m_off[l] = (MIXED && l == NL - 1) ? offsetof(struct elem, n2) : offsetof(struct elem, n); memset(&L[l], 0xA5, sizeof L[l]); cstl_dlist_init(&L[l], m_off[l]); m_len[l] = 0; }
 }
 
 static int w_enabled(mc_op_t o)
@@ -219,7 +225,7 @@ static void w_apply(mc_op_t o)
     case O_CONCAT:
         if (a != b && m_len[b] > 0) MC_COUNT(K_CONCAT_NONEMPTY);
         SHIM_CALL(ab, cstl_dlist_concat(&L[a], &L[b]));
-        if (a != b) { while (m_len[b] > 0) { int i = m_seq[b][0]; m_remove(b, 0); m_insert(a, m_len[a], i); } }
+        if (a != b && m_off[a] == m_off[b]) { while (m_len[b] > 0) { int i = m_seq[b][0]; m_remove(b, 0); m_insert(a, m_len[a], i); } }
         break;
     case O_SWAP: {
         int t[MAXN], tn;
@@ -231,6 +237,7 @@ static void w_apply(mc_op_t o)
             m_len[b] = tn; memcpy(m_seq[b], t, sizeof t);
             for (k = 0; k < m_len[a]; k++) m_where[m_seq[a][k]] = a;
             for (k = 0; k < m_len[b]; k++) m_where[m_seq[b][k]] = b;
+            { size_t t_ = m_off[a]; m_off[a] = m_off[b]; m_off[b] = t_; }
         }
         break;
     }
@@ -311,7 +318,7 @@ static void w_audit(void)
             }
         }
     }
-    for (k = 0; k < N; k++) MC_CHECK(PC12, pool[k].pad == 0x1111 && pool[k].tail == 0x2222 && pool[k].val == vals[k], "element %d bytes outside its list node were modified", k);
+    for (k = 0; k < N; k++) MC_CHECK(PC12, pool[k].pad == 0x1111 && pool[k].tail == 0x2222 && pool[k].pad2 == 0x3333 && pool[k].val == vals[k], "element %d bytes outside its list node were modified", k);
 }
 
 /* canonical key: the raw link fields of every list head and every member node, addresses replaced by symbols */
@@ -324,14 +331,18 @@ static void sym(const void *p)
         && ((uintptr_t)p - (uintptr_t)pool) % sizeof(struct elem) == offsetof(struct elem, n)) {
         KB_C('e'); KB_U((unsigned)(((uintptr_t)p - (uintptr_t)pool) / sizeof(struct elem))); return;
     }
+    if ((uintptr_t)p >= (uintptr_t)pool && (uintptr_t)p < (uintptr_t)(pool + N)
+        && ((uintptr_t)p - (uintptr_t)pool) % sizeof(struct elem) == offsetof(struct elem, n2)) {
+        KB_C('f'); KB_U((unsigned)(((uintptr_t)p - (uintptr_t)pool) / sizeof(struct elem))); return;
+    }
     KB_C('?');
 }
 static void canon_one(int l)
 {
     int k;
 
-        KB_C('L'); KB_U(L[l].size); KB_C(':'); sym(L[l].h.n); KB_C(','); sym(L[l].h.p); KB_C('[');
-        for (k = 0; k < m_len[l]; k++) { const struct elem *e = &pool[m_seq[l][k]]; KB_U((unsigned)e->idx); KB_C('='); sym(e->n.n); KB_C(','); sym(e->n.p); KB_C(' '); }
+        KB_C('L'); KB_U(L[l].size); KB_C('o'); KB_U(L[l].off); KB_C('/'); KB_U(m_off[l]); KB_C(':'); sym(L[l].h.n); KB_C(','); sym(L[l].h.p); KB_C('[');
+        for (k = 0; k < m_len[l]; k++) { const struct elem *e = &pool[m_seq[l][k]]; KB_U((unsigned)e->idx); KB_C('='); sym(ND(e->idx, m_off[l])->n); KB_C(','); sym(ND(e->idx, m_off[l])->p); KB_C(' '); }
         KB_C(']');
 }
 static void w_canon(void)
@@ -346,7 +357,7 @@ static void check_fresh(int l)
     char got[256], fresh[256]; size_t save = mc_kbn, n1, n2; int sl = m_len[l];
     static struct cstl_dlist saved;
     mc_kbn = 0; m_len[l] = 0; canon_one(l); n1 = mc_kbn < 255 ? mc_kbn : 255; memcpy(got, mc_kb, n1); got[n1] = 0;
-    saved = L[l]; cstl_dlist_init(&L[l], offsetof(struct elem, n));
+    saved = L[l]; cstl_dlist_init(&L[l], m_off[l]);
     mc_kbn = 0; canon_one(l); n2 = mc_kbn < 255 ? mc_kbn : 255; memcpy(fresh, mc_kb, n2); fresh[n2] = 0;
     L[l] = saved; m_len[l] = sl; mc_kbn = save;
     MC_CHECK(PC15, !strcmp(got, fresh), "after clear list %d is not like a freshly initialised one: fields %s, fresh %s", l, got, fresh);
